@@ -31,6 +31,27 @@ TEXT = {
             "D5 is a known finding (old `all` copies are derived from new morphism data). Value-level transitivity is not decided separately (it follows from processing in topological order given C18)."),
 }
 
+TEXT.update({
+    "C08": ("The nine prefix-tree arities are one implementation (S-SIB: token-skeleton equality of every method for arities 2..9); the invariant `no key maps to an empty subtree`, on which is_empty() rests, is kept by every shrinking/storing method (S-PRUNE) and respected by emitted code (T-PRUNE-USE); clones are independent because no container type has interior mutability (M-FREEZE), the unsafe inventory is exactly the two audited raw-pointer dereferences of IterMut (M-UNSAFE), mapping nodes never enter live trees (M-MAPFREE); union/difference callbacks receive (self, other) values in order (M-CBORDER, MIR taint).",
+            "Sortedness and prefix lookups for arities 0..2 are only covered through the map rules of C14. Known finding: get_mut hands out &mut subtrees that emitted code shrinks."),
+    "C09": ("rustc's type checker accepts every emitted module and component (`--emit=metadata`, nothing linked or run) for /verif/corpus in both build modes and the shipped theories (module mode in quick, both in thorough); imports equal exports between module and components, a link-time condition the type checker does not see (T-X); env structs only name fields that exist (T-ENV); ModelDelta has exactly the vectors the rules push to (T-DELTA).",
+            "Bounded by the analysed programs; absence of panics in the lowering passes for programs outside them is not decided. Known finding D10 (member enum `!`)."),
+    "C11": ("On the path that renders a diagnostic (Display of CompileErrorWithContext / SourceDisplay, From<ParseError>, whipe_comments, line table) every panic-capable operation in the reachable call graph (explicit panics, unwrap/expect, str/slice indexing, overflow/bounds asserts) is in an audited table with one reason per entry, one of them under a checked structural precondition (M-PANIC); byte offsets are never computed from str::lines() plus a constant terminator width, and the parsed text is never a re-joined copy of the text diagnostics are rendered against (M-LINES).",
+            "Diagnostic path only: panics and hangs inside parsing, closing the compiler's own model and the semantic passes rest on invariants of that model and are NOT decided."),
+    "C12": ("MIR control-flow analysis of process_file and compile_component_rlib (dominators, must-pass over all paths, so over all crash points): every output mutation (fs::write, rustc, component build) is dominated by the removal of the digest that vouches for it; from every mutation every Ok return passes the digest write; nothing is mutated after it; the up-to-date path mutates nothing; the component digest is written only after rustc succeeded; the skip needs digest match and existing rlib; only these functions touch the file system; stale component files are removed before the directory is enumerated (M-DIGEST).",
+            "Durability (fsync) is not decided (acknowledged in the source); equality of regenerated text with a clean build is C13."),
+    "C13": ("Inventory over every MIR body of the compiler crate: no iteration over hash containers, clocks, thread ids, environment, directory order or pointer-to-integer casts outside an audited table (one named function + reason per entry, with a live positive example) (M-DET); the one parallel section captures only shared references to cell-free data and writes only paths derived from its own item (M-PAR); directory configuration does not reach the emitters or the digest (M-DIRTAINT, MIR taint).",
+            "Assumes determinism of the registry-built model code (eqlog-eqlog prebuilt by crates.io eqlog 0.8.0) the compiler links. Byte equality of two runs is not decided."),
+    "C14": ("Persistence: no interior mutability in any container type (M-FREEZE), unsafe inventory = two audited blocks, no raw-pointer laundering (M-UNSAFE), no mapping nodes in live trees (M-MAPFREE); callbacks in (left, right) order on every path of union/difference (M-CBORDER); `len` maintained wherever `root` is replaced and taken from Node::size for constructed maps (M-LEN); every child assignment in insert/remove_min/remove_existing_node/rotations is followed by a size update on all paths to return and reaches balance; join balances every node it builds; (DELTA, GAMMA) = (3, 2) (M-SIZE, M-BAL).",
+            "That rotations restore the weight-balance invariant (arithmetic over sizes) and agreement with a reference map are NOT decided; these are necessary structural conditions."),
+    "C18": ("morphism_toposort uses the new and the old half of each of its three table pairs through the same operations (MIR taint per parameter through nested closures; combination by chain/or_else is symmetric) (M-SYM); the emitted call passes dom (order 1_0), cod (order 0_1) and object tables in the callee's positions and does not swallow its error (T-MOR).",
+            "That the output is a topological order and that an error is returned iff there is a cycle is algorithmic and NOT decided; only split-independence (up to order of equally ranked morphisms) and the interface are."),
+    "C19": ("Exact on emitted text for every analysed program: env struct of each rule identical in module, embedded rule module and component; link_name = exported no_mangle name with equal parameter type; imports = exports; embedded rule code = component source; all model code outside rule modules identical between build modes (T-X, syntax-tree equality); in the generator each of these pieces has a single emitter reached by both display_module and display_ram_module (M-EMIT, MIR call graph).",
+            "`Identical observable results` follows from the code being the same; not separately checked."),
+    "C20": ("Inventory claim: the runtime crate calls no hash iteration, clock, thread, environment or pointer-exposing operation in any MIR body (M-DETRT); emitted code names no such facility and its model struct has only ordered/dense field types (T-DET); raw pointers are confined to the audited IterMut blocks and never compared, hashed or exposed (M-UNSAFE); no interior mutability (M-FREEZE).",
+            "In safe Rust without those sources the transcript is a function of the call sequence; nothing further decided."),
+})
+
 NOT_APPLICABLE = {
     "C10": "The verdict for a program is the least fixed point of ~300 inference rules of eqlog.eql evaluated by registry-built code followed by value-level comparisons; no clause of the `iff` is visible in code shape and not already enforced by the 45 error tests. Static analysis is declined rather than dressed up (DESIGN.md section 7).",
 }
